@@ -36,6 +36,8 @@ def signPayload (q : QC) (h : View) : Payload :=
 structure Env where
   networkId : UInt64
   chainId : UInt64
+  /-- `b.RootHeight`: the root height the replica is currently at -/
+  rootHeight : UInt64
   globalMaxBlockSize : Nat
   /-- `LoadCommittee(rootChainId, rootHeight)` -/
   committeeAt : UInt64 → Option (List Member)
@@ -127,8 +129,11 @@ def doubleSigners (sa sb : AggSig) (ms : List Member) : Except String (List KeyI
   else if sb.bitmap.length != (ms.length + 7) / 8 * 8 then .error ErrInvalidSignerBitmap
   else .ok (both sa.bitmap sb.bitmap ms)
 
-/-- one element of the loop of `ProcessDSE` up to the list of double signers: (committee height, keys) -/
-def processOne (env : Env) (x : Option DSE) : Except String (UInt64 × List KeyId) :=
+/-- one element of the loop of `ProcessDSE` up to the list of double signers: (committee height, keys).
+The minimum evidence height is asked for as of the replica's current root height
+(`b.LoadMinimumEvidenceHeight(rootChainId, b.RootHeight)`, repair c09f5c7); `preFix = true` is the behaviour
+before that repair — as of the evidence's own root height — kept as a witness (see `Props/C14`). -/
+def processOneWith (preFix : Bool) (env : Env) (x : Option DSE) : Except String (UInt64 × List KeyId) :=
   match unpack x with
   | .error e => .error e
   | .ok (a, b, ha, hb) =>
@@ -137,7 +142,7 @@ def processOne (env : Env) (x : Option DSE) : Except String (UInt64 × List KeyI
       match env.committeeAt ha.rootHeight with
       | none => .error ErrNoValidators
       | some ms =>
-        match env.minEvidenceAt ha.rootHeight with
+        match env.minEvidenceAt (if preFix then ha.rootHeight else env.rootHeight) with
         | none => .error ErrEnv
         | some minHeight =>
           match check env a b ha hb ms minHeight with
@@ -151,6 +156,8 @@ def processOne (env : Env) (x : Option DSE) : Except String (UInt64 × List KeyI
                 | .error e => .error e
                 | .ok ks => .ok (ha.rootHeight, ks)
               | _, _ => .error ErrEmptyAggregateSignature
+
+def processOne := processOneWith false
 
 /-- `lib.DoubleSigner` -/
 structure DS where
@@ -172,14 +179,18 @@ def addSigners (env : Env) (h : UInt64) : List KeyId → List DS → List DS
   | k :: ks, acc => addSigners env h ks (if env.alreadySlashed k h then acc else addSigner acc k h)
 
 /-- `BFT.ProcessDSE(dse...)` with the accumulator made explicit -/
-def processDSEFrom (env : Env) : List (Option DSE) → List DS → Except String (List DS)
+def processDSEFrom (preFix : Bool) (env : Env) : List (Option DSE) → List DS → Except String (List DS)
   | [], acc => .ok acc
   | x :: xs, acc =>
-    match processOne env x with
+    match processOneWith preFix env x with
     | .error e => .error e
-    | .ok (h, ks) => processDSEFrom env xs (addSigners env h ks acc)
+    | .ok (h, ks) => processDSEFrom preFix env xs (addSigners env h ks acc)
 
-def processDSE (env : Env) (xs : List (Option DSE)) : Except String (List DS) := processDSEFrom env xs []
+def processDSEWith (preFix : Bool) (env : Env) (xs : List (Option DSE)) : Except String (List DS) :=
+  processDSEFrom preFix env xs []
+
+/-- `BFT.ProcessDSE` -/
+def processDSE := processDSEWith false
 
 /-- the `slices.ContainsFunc` test of `ValidateByzantineEvidence` -/
 def justified (localDS : List DS) (ds : DS) : Bool :=
@@ -191,15 +202,17 @@ def validateList (localDS : List DS) : List (Option DS) → Option String
   | some ds :: rest => if !justified localDS ds then some ErrMismatchEvidenceAndHeader else validateList localDS rest
 
 /-- `BFT.ValidateByzantineEvidence(slashRecipients, be)`: `none` = accepted -/
-def validateByzantineEvidence (env : Env) (slash : Option (List (Option DS))) (be : List (Option DSE)) : Option String :=
+def validateByzantineEvidenceWith (preFix : Bool) (env : Env) (slash : Option (List (Option DS))) (be : List (Option DSE)) : Option String :=
   match slash with
   | none => none
   | some l =>
     if l.length == 0 then none
     else
-      match processDSE env be with
+      match processDSEWith preFix env be with
       | .error e => some e
       | .ok localDS => validateList localDS l
+
+def validateByzantineEvidence := validateByzantineEvidenceWith false
 
 /-- `AddDSE` nullifies block and results of both votes before processing -/
 def stripQC (q : QC) : QC := { q with block := none, results := none }
@@ -210,13 +223,15 @@ inductive AddResult
 deriving DecidableEq, Repr
 
 /-- `BFT.AddDSE`: the decision (the pool itself is kept by the caller; `isDup` = the de-duplicator hit) -/
-def addDSE (env : Env) (isDup : Bool) (x : Option DSE) : AddResult :=
+def addDSEWith (preFix : Bool) (env : Env) (isDup : Bool) (x : Option DSE) : AddResult :=
   match checkBasic x with
   | some e => .rejected e
   | none =>
-    match processDSE env [x.map strip] with
+    match processDSEWith preFix env [x.map strip] with
     | .error e => .rejected e
     | .ok bad => if bad.length == 0 then .rejected ErrInvalidEvidence else if isDup then .duplicate else .added
+
+def addDSE := addDSEWith false
 
 /-- one iteration of `addDSEByPartialQC`: the certificate a stored partial QC is paired with — for the
 current height the leader message one phase above in the same round, for an earlier height (PRECOMMIT_VOTE
